@@ -106,18 +106,12 @@ def fires (c : Cfg) (p : Proc) (op : Op) : List String :=
   | .reclaim => if reclaimDeletesUnread p then ["reclaimDeletesUnread"] else []
   | .open_ _ => firesOpen c p 0
   | .append t pay =>
-    (if c.metaSz + pay.len > c.maxAlloc then ["sealThenAllocFail"] else []) ++
     (if leavesEmptyBlock c p op t then ["emptyBlockAllocated"] else [])
   | .batch t ps =>
-    (if ps.length ≤ c.cap ∧ (ps.map fun x => c.metaSz + x.len).sum ≤ c.maxBatchBytes ∧ !t.long ∧
-        ps.any (fun x => decide (c.metaSz + x.len > c.maxAlloc)) then ["sealThenAllocFail"] else []) ++
     (if leavesEmptyBlock c p op t then ["emptyBlockAllocated"] else [])
   | .appendF t pay _ =>
-    (if c.metaSz + pay.len > c.maxAlloc then ["sealThenAllocFail"] else []) ++
     (if leavesEmptyBlock c p op t then ["emptyBlockAllocated"] else [])
   | .batchF t ps _ =>
-    (if ps.length ≤ c.cap ∧ (ps.map fun x => c.metaSz + x.len).sum ≤ c.maxBatchBytes ∧ !t.long ∧
-        ps.any (fun x => decide (c.metaSz + x.len > c.maxAlloc)) then ["sealThenAllocFail"] else []) ++
     (if rotatedThenFailed c p op t then ["rollbackKeepsNewBlock"] else []) ++
     (if leavesEmptyBlock c p op t then ["emptyBlockAllocated"] else [])
   | .onB o =>
